@@ -223,6 +223,9 @@ POOL_CFG = [
     ('trypsin', 'trypsin_exception', 1, 2, 5, 100.), ('trypsin', 'trypsin_exception', 2, 1, 7, 300.),
     ('lysc', None, 1, 2, 5, 100.), ('lysn', None, 1, 2, 5, 100.), ('asp-n', None, 2, 1, 6, 100.),
     ('chymotrypsin high specificity', None, 1, 2, 6, 100.), ('arg-c', None, 0, 3, 4, 250.),
+    # tight maxima, so that strings of the enumerated lengths cross the upper limit by exactly one residue
+    # (an N-terminal product of max_length + 1 whose M-removed form is still inside the limits)
+    ('trypsin', None, 1, 1, 3, 100.), ('lysc', None, 2, 2, 3, 100.), ('trypsin', 'trypsin_exception', 2, 1, 2, 100.),
 ]
 
 
